@@ -21,7 +21,7 @@ TRUSTED = [
     'the START/END/TEXT path of the three serializers incl. EmptyTagFilter and WhitespaceFilter (hand-written Lean model, tied by exact '
     'comparison of the output text on generated templates)',
     'not modelled: the XML template parser, expression evaluation (cases carry the values the expressions evaluate to), namespaces, '
-    'the serializer caches (work package C09), comments/PIs/CDATA/doctype events',
+    'comments/PIs/CDATA/doctype events (the serializer event cache is modelled for START/END/TEXT/EMPTY: serToksC, cache_unobservable)',
     'expat and html.parser are the independent readers of the oracle; the Lean reader is compared with them on every real output',
     'CPython str() of numbers / objects and str.strip() (the whitespace class is regenerated into Gen/Subst.lean)',
 ]
@@ -30,9 +30,8 @@ ASSUMPTIONS = [
     'payload characters under xml/xhtml are XML 1.0 Chars without CR (finding C01-xml-unrepresentable); attribute payloads under xml/xhtml '
     'carry no TAB/LF (XML attribute-value normalisation, finding C01-attr-ws-xml)',
     'strip_whitespace=True: text is compared after the documented whitespace normalisation (trailing blanks before a newline, runs of newlines)',
-    'no script/style under html, no CDATA, no xml:space (raw-text and cache defects belong to work package C08/C09)',
+    'script/style elements carry literal text without < and & only (substitution inside them is the exception the property states for html; their own content is the concern of C08/C09); no CDATA, no xml:space',
     'operands of Markup operators are str, Markup or objects with __html__ (domain of C18); boolean attributes and prefixed attribute names are not generated',
-    'py:attrs values that are blank after trimming are not generated (finding C01-attrs-blank-dropped)',
 ]
 
 METHODS = ['xml', 'xhtml', 'html']
@@ -235,6 +234,7 @@ def shard(arg):
             res.nontrivial.add(key)
         try:
             G.validate(case)
+            count_shapes(case, res)
             f = oracle_case(case)
         except Exception as e:   # the generator left its own grammar: a harness defect, never silent
             f = {'case': case, 'what': 'generator produced a case outside its grammar: %r' % (e,), 'expected': None, 'observed': None}
@@ -263,6 +263,7 @@ def judge_cases(cases, res, tag):
             res.nontrivial.add(key)
         try:
             G.validate(case)
+            count_shapes(case, res)
             f = oracle_case(case)
         except Exception as e:
             f = {'case': case, 'what': 'generator produced a case outside its grammar: %r' % (e,), 'expected': None, 'observed': None}
@@ -275,6 +276,16 @@ def judge_cases(cases, res, tag):
             except Exception:
                 outs.append(None)
     compare_with_model(cases, outs, res)
+
+
+def count_shapes(case, res):
+    """which events the serializer serves from its per-render cache before character data, per method and
+    whitespace setting (html without stripping is where the serializer's own `noescape` flag decides)"""
+    where = '%s/strip:%s' % (case['method'], case['strip'])
+    for sh in G.cache_shapes(G.first_choice(G.Spec(case).expected())):
+        res.count('shape:' + sh)
+        if sh.endswith('raw-END'):
+            res.count('shape:%s:%s' % (sh, where))
 
 
 def matrix_shard(arg):
@@ -350,6 +361,8 @@ def run(ctx):
     res.rule = ('templates drawn from a grammar nesting every substitution site x payload kinds x 3 methods x 2 strip settings x both '
                 'Markup implementations, plus the deterministic matrix of every site x every critical payload and every string of length <= 2 (quick) / 4 (thorough) over an 8-symbol critical alphabet at the core sites; non-trivial = some context value contains one of & < > "; distinct by (method, strip, template, data)')
     res.samples = res.samples[:6]
+    # the smallest failing case first: the framework shrinks and reports failures[0]
+    res.failures.sort(key=lambda f: (len(json.dumps(f['case'], sort_keys=True)), json.dumps(f['case'], sort_keys=True)))
     return res
 
 
